@@ -187,6 +187,10 @@ func (w *World) notes(s *Scenario, evs []state.NotificationEvent) []Note {
 			if len(items) == 1 {
 				if v, err := items[0].TryInteger(); err == nil {
 					n.N = v.Int64()
+				} else if in, ok := items[0].Value().([]stackitem.Item); ok && len(in) == 1 { // the scenario contracts' payload [n]
+					if v, err := in[0].TryInteger(); err == nil {
+						n.N = v.Int64()
+					}
 				}
 			}
 		}
